@@ -36,7 +36,7 @@ func init() {
 			return 96
 		},
 		Run:     runC11,
-		Require: []string{"scans_quiescent", "scans_interleaved", "scans_concurrent", "splits_during_scan", "level_change_during_scan", "compaction_during_scan", "stable_keys_checked", "stable_in_overflow", "pairs_checked"},
+		Require: []string{"scans_quiescent", "scans_interleaved", "scans_concurrent", "splits_during_scan", "level_change_during_scan", "compaction_during_scan", "stable_keys_checked", "stable_in_overflow", "pairs_checked", "shared_iterator_scans"},
 	})
 }
 
@@ -307,6 +307,50 @@ func runC11Goroutines(c *core.Ctx) {
 	defer d.env.Cleanup()
 	if overflowStable(d) > 0 {
 		c.Stat("stable_in_overflow", 1)
+	}
+	// before any writer starts: ONE iterator shared by four goroutines over the quiescent database must hand out every
+	// live pair exactly once in total (Next is documented as safe for concurrent use)
+	{
+		it := d.db.Items()
+		var mu sync.Mutex
+		got := map[string]int{}
+		bad := ""
+		var swg sync.WaitGroup
+		for g := 0; g < 4; g++ {
+			swg.Add(1)
+			go func() {
+				defer swg.Done()
+				for {
+					k, v, err := it.Next()
+					if err == pogreb.ErrIterationDone {
+						return
+					}
+					mu.Lock()
+					if err != nil {
+						bad = "Next: " + err.Error()
+						mu.Unlock()
+						return
+					}
+					if sv, ok := d.stable[string(k)]; !ok || sv != string(v) {
+						bad = fmt.Sprintf("pair (%x, %q) is not a live pair", trunc(k, 16), v)
+					}
+					got[string(k)]++
+					mu.Unlock()
+				}
+			}()
+		}
+		swg.Wait()
+		c.Stat("shared_iterator_scans", 1)
+		for k := range d.stable {
+			if got[k] != 1 && bad == "" {
+				bad = fmt.Sprintf("key %x was returned %d times", trunc([]byte(k), 16), got[k])
+			}
+		}
+		if bad != "" {
+			c.Violation("shared-iterator-scan", "four goroutines sharing one iterator over a quiescent database: "+bad, map[string]interface{}{"hash_seed": d.seed, "fs": fsk})
+			d.db.Close()
+			return
+		}
 	}
 	var clock atomic.Int64
 	type putEv struct {
